@@ -365,7 +365,11 @@ func TestC05(t *testing.T) {
 		}
 	}
 	// ---- Engine T part: a false accusation racing UpdateNode must not lose the owner's latest metadata
-	runTSet(t, rep, c02TScenarios(), 2, 11000, func(v string) bool { return v == "latest-metadata-not-published" || v == "update-needed-its-timeout" })
+	tb5 := 2
+	if thorough() {
+		tb5 = 3
+	}
+	runTSet(t, rep, c02TScenarios(), tb5, 11000, func(v string) bool { return v == "latest-metadata-not-published" || v == "update-needed-its-timeout" })
 	rep.Extra["executions"] = execs
 	rep.Extra["precondition_false"] = skipped
 	rep.States = len(digests)
